@@ -17,16 +17,16 @@
    conjugate-gradient drivers written statement by statement; ./check C18 compares it with the implementation like the
    Levenberg model.  C18_line_search_partial and C18_conjugate_gradient_partial prove feasibility, reported cost and the
    iteration bound for it.
-   _partial: (1) for L-BFGS only the feasibility clause is a theorem (over the generated atoms); for conjugate gradient
-   'SUCCESS is sound' and 'does not exceed the starting cost' need arithmetic the abstract scalar type does not have
-   (Armijo condition; a zero direction component leaves a variable where it is) and are checked on every run of the
-   harness, as are all clauses for L-BFGS; both feasibility theorems carry the assumption SInvokeFree / its analogue for
-   the line search entered without bounds.  (2) "the call
+   MinimLBFGS.v is the bounded L-BFGS driver in the same style (C18_lbfgs_partial).
+   _partial: (1) for conjugate gradient and L-BFGS 'SUCCESS is sound' and 'does not exceed the starting cost' need
+   arithmetic the abstract scalar type does not have (Armijo condition; a zero direction component leaves a variable where
+   it is) and are checked on every run of the harness, not proved; their feasibility theorems carry the assumption
+   SInvokeFree / its analogue for the line search entered without bounds; the unbounded L-BFGS driver is not modelled.  (2) "the call
    terminates": C18_outer_loop_terminates_partial bounds the outer loop; the inner loop ends when the damping, doubled
    from its restart value, passes its maximum, which is arithmetic the abstract scalar type does not have; the
    harness observes termination under an alarm. *)
 From Coq Require Import ZArith List Bool.
-From Adept Require Import Scalar Minim MinimProofs MinimReal ExprReal MinimFlow MinimFlowProofs MinimCG MinimCGProofs.
+From Adept Require Import Scalar Minim MinimProofs MinimReal ExprReal MinimFlow MinimFlowProofs MinimCG MinimCGProofs MinimLBFGS MinimLBFGSProofs.
 From AdeptGen Require Import Gen_Minim.
 Import ListNotations.
 Local Open Scope Z_scope.
@@ -167,7 +167,25 @@ Qed.
 Theorem C18_conjugate_gradient_invalid_bounds_partial : forall lo hi fuel s k fr x m1 inf, valid_bounds O lo hi x = false ->
   let r := cg_bounded O cost grad norm2 osqrt isfinite fuel s k fr lo hi x m1 inf in r_status r = MInvalidBounds /\ r_log r = [] /\ r_x r = x.
 Proof. exact (cg_bounded_invalid O cost grad norm2 osqrt isfinite). Qed.
+(* bounded L-BFGS (MinimLBFGS.v: LbfgsData store, two-loop recursion, interpolated curvature coefficient, restart of the
+   storage when a bound is met), same statement and same assumption *)
+Theorem C18_lbfgs_partial : forall (ofz : Z -> T) lo hi,
+  (forall k ds x dir, inbox O lo hi x -> snd (fst (nearest_bound O k ds x lo hi dir 0 (cbig k, -1, 0))) < 0 ->
+                      forall ds' ss, inbox O lo hi (point O None x dir ds' ss)) ->
+  forall fuel ls k x m1 inf, valid_bounds O lo hi x = true ->
+  let r := lbfgs_bounded O cost grad norm2 osqrt isfinite ofz fuel ls k lo hi x m1 inf in
+  Forall (fun e => inbox O lo hi (ev_state e)) (r_log r) /\ inbox O lo hi (r_x r)
+  /\ (r_status r <> MOutOfFuel -> r_cost r = cost (r_x r)) /\ (0 < g_max_it (lb_cg ls) -> 0 <= r_iter r <= g_max_it (lb_cg ls)).
+Proof.
+  exact (fun ofz lo hi Hfree fuel ls k x m1 inf Hv =>
+           lbfgs_bounded_spec O cost grad norm2 osqrt isfinite ofz le_total lt_le lo hi (valid_bounds_box_le O le_total lo hi x Hv) Hfree fuel ls k x m1 inf Hv).
+Qed.
+Theorem C18_lbfgs_invalid_bounds_partial : forall (ofz : Z -> T) lo hi fuel ls k x m1 inf, valid_bounds O lo hi x = false ->
+  let r := lbfgs_bounded O cost grad norm2 osqrt isfinite ofz fuel ls k lo hi x m1 inf in r_status r = MInvalidBounds /\ r_log r = [] /\ r_x r = x.
+Proof. exact (fun ofz => lbfgs_bounded_invalid O cost grad norm2 osqrt isfinite ofz). Qed.
 End ConjugateGradient.
+Print Assumptions C18_lbfgs_partial.
+Print Assumptions C18_lbfgs_invalid_bounds_partial.
 Print Assumptions C18_line_search_partial.
 Print Assumptions C18_conjugate_gradient_partial.
 Print Assumptions C18_conjugate_gradient_invalid_bounds_partial.
